@@ -322,6 +322,9 @@ pub fn c06_zero_width_cap(len: usize) -> u64 {
 fn gen_c06_conditional(rng: &mut Rng) -> Node {
     let rep = |body: Node, q: (usize, Option<usize>), greedy: bool| Node::Repeat { body: Box::new(body), min: q.0, max: q.1, greedy, spell: 0 };
     let quants: [(usize, Option<usize>); 5] = [(0, None), (1, None), (2, None), (0, Some(30)), (1, Some(20))];
+    // minima far above the input length, only over the body with a single empty way (several empty
+    // alternatives under a large minimum enumerate their combinations on the unmodified engine too)
+    let big_minima: [(usize, Option<usize>); 3] = [(25, None), (40, Some(60)), (12, None)];
     let with_ref = rng.chance(1, 2);
     let z = |rng: &mut Rng| -> Node {
         if with_ref {
@@ -341,7 +344,13 @@ fn gen_c06_conditional(rng: &mut Rng) -> Node {
     if rng.chance(3, 4) {
         alts.insert(rng.below(alts.len() + 1), Node::Char(*rng.pick(&['a', 'b'])));
     }
-    let body = Node::NcGroup(Box::new(Node::Alt(alts)));
+    let single_empty_way = with_ref && rng.chance(1, 3);
+    let body = if single_empty_way {
+        // \1a* : empty whenever the group is, one more way to split the input for every iteration
+        Node::NcGroup(Box::new(Node::Cat(vec![Node::Backref(1), rep(Node::Char('a'), (0, None), true)])))
+    } else {
+        Node::NcGroup(Box::new(Node::Alt(alts)))
+    };
     let mut v = vec![];
     if with_ref {
         v.push(Node::Group(Box::new(match rng.below(3) {
@@ -350,7 +359,8 @@ fn gen_c06_conditional(rng: &mut Rng) -> Node {
             _ => rep(Node::Char('b'), (0, None), true),
         })));
     }
-    v.push(rep(body, *rng.pick(&quants), rng.chance(3, 4)));
+    let q = if single_empty_way && rng.chance(1, 2) { *rng.pick(&big_minima) } else { *rng.pick(&quants) };
+    v.push(rep(body, q, rng.chance(3, 4)));
     if rng.chance(3, 4) {
         v.push(Node::Char(*rng.pick(&['c', 'b'])));
     }
@@ -830,6 +840,19 @@ impl Monitor for C07 {
             let mut c = Case::raw(&p, *rng.pick(&["", "", "i", "x"]), "");
             c.aux = Some("hyphen_edges".to_string());
             emit(c);
+        }
+        // (e) every one- and two-letter name over the letters that occur in category names, as \p{..}
+        // and \P{..}, bare and inside a class: the recogniser knows the 37 valid names
+        if w.shard == 0 || !w.quick() {
+            let letters: Vec<char> = "LMNPZSCulotmndcespfikxU".chars().collect();
+            for a in &letters {
+                emit(Case::raw(&format!("\\p{{{}}}", a), "", ""));
+                for b in &letters {
+                    let n: String = [*a, *b].iter().collect();
+                    emit(Case::raw(&format!("\\p{{{}}}", n), "", ""));
+                    emit(Case::raw(&format!("[\\P{{{}}}0-9]+", n), "i", ""));
+                }
+            }
         }
         desc.set("hyphen_edge_patterns_this_shard", J::u(nh));
         desc.set("random_patterns_this_shard", J::u(n));
